@@ -954,6 +954,7 @@ func areaInstance(r *Rng, n int, dir string) (*AreaOut, error) {
 		closeEnv()
 	}
 	syncer.VerifSetClock(nil)
+	eofValueProbe(out, dir)
 	out.Cases = len(cases)
 	out.Distinct = len(nontriv)
 	for i := 0; i < 3 && i < len(cases); i++ {
